@@ -400,9 +400,16 @@ def gen_ublock_case(rng, max_calls=4, allow_fail=True):
     return c
 
 
-def gen_cblock_case(rng, max_calls=4, allow_fail=True):
+def gen_cblock_case(rng, max_calls=4, allow_fail=True, dups=False):
     c = gen_block_case(rng, max_calls=max_calls, allow_fail=allow_fail)
     c["cache"] = True
+    if dups and rng.random() < 0.6:
+        # identical calls: hits, and identical calls in flight together
+        for i in range(2, len(c["calls"]) + 1):
+            if rng.random() < 0.5:
+                j = rng.randrange(1, i)
+                j = c["calls"][j - 1].get("same_as", j)
+                c["calls"][i - 1] = {"raises": c["calls"][j - 1].get("raises", False), "same_as": j}
     if rng.random() < 0.3:
         c["iofault"] = rng.randint(1, 14)      # the k-th HDF5 operation fails (disk full)
     return c
@@ -632,3 +639,110 @@ def compare_noen_lines(il, coq_out, cut=None):
     if len(il) != len(ml):
         return {"kind": "length", "impl": len(il), "model": len(ml), "impl_tail": il[-2:], "model_tail": ml[-2:]}
     return None
+
+
+# ------------------------------------------------------------------ cached block executor (Model/CacheExec.v)
+def cexec_sessions(case):
+    return case.get("sessions") or [{"ops": case["ops"]}]
+
+
+def cexec_lockstep_ok(case):
+    if case.get("iofault"):
+        return False
+    for s in cexec_sessions(case):
+        cr = s.get("crash")
+        if cr and not (cr["entity"] == "ALL" or cr["entity"].startswith("W")):
+            return False
+    return True
+
+
+def split_sessions_c(case, res):
+    """per session: trace entries renumbered to session-local queue 0, worker and process numbers"""
+    import re as _re
+    bounds, prev = [], 0
+    for so in res["sessions"]:
+        bounds.append((prev, so["steps"]))
+        prev = so["steps"]
+    out, seen_p, seen_w = [], 0, 0
+    for si, (a, b) in enumerate(bounds):
+        offp, offw = seen_p, seen_w
+
+        def ren(n, offp=offp, offw=offw):
+            if isinstance(n, str):
+                m = _re.match(r"^([WPSC])(\d+)$", n)
+                if m:
+                    k = int(m.group(2)) - (offw if m.group(1) == "W" else offp)
+                    return "%s%d" % (m.group(1), k)
+            return n
+        entries = []
+        for en, pick, lab in res["trace"][a:b]:
+            lab = list(lab)
+            if lab[0] == "crash" and lab[1] == "ALL":
+                continue
+            if lab[0] == "spawn":
+                seen_p = max(seen_p, int(lab[1][1:]))
+            if lab[0] == "tstart" and str(lab[1]).startswith("W"):
+                seen_w = max(seen_w, int(lab[1][1:]))
+            if lab[0] in ("put", "get", "getnw", "td", "qjoin"):
+                lab[1] = lab[1] - si
+            elif lab[0] in ("tstart", "tjoin", "spawn", "ppoll", "pcomm", "pterm", "pwait", "crash", "zsend", "zrecv"):
+                lab[1] = ren(lab[1])
+            entries.append(([ren(e) for e in en], ren(pick), lab))
+        out.append(entries)
+    return out, (seen_w, seen_p)
+
+
+def coq_expr_cc(case, res):
+    canon = [str(c.get("same_as", i + 1)) for i, c in enumerate(case["calls"])]
+    rs = [i + 1 for i, c in enumerate(case["calls"]) if c.get("raises")]
+    parts, _ = split_sessions_c(case, res)
+    sess = []
+    for s, entries in zip(cexec_sessions(case), parts):
+        picks = []
+        for en, pick, lab in entries:
+            picks.append("CCrashW %s" % pick[1:] if lab[0] == "crash" else "CK %s" % tid_coq(pick))
+        sess.append("([%s], [%s])" % ("; ".join(op_coq(o) for o in s["ops"]), "; ".join(picks)))
+    return "(csessions_case %d [%s] [%s] %d [%s])%%nat" % (
+        case.get("workers", 1), "; ".join(str(x) for x in rs), "; ".join(canon), len(case["calls"]), "; ".join(sess))
+
+
+def impl_lines_cc(case, res):
+    lines = []
+    parts, _ = split_sessions_c(case, res)
+    for si, entries in enumerate(parts):
+        for en, pick, lab in entries:
+            lines.append("%s|%s|%s" % (",".join(en), pick, " ".join(str(x) for x in lab)))
+        if si < len(parts) - 1:
+            lines.append("S|nfiles=%d" % res["sessions"][si].get("nfiles", -1))
+    last = res["sessions"][-1]
+    nf = len(case["calls"])
+    mine = {o[1] for o in cexec_sessions(case)[-1]["ops"] if o[0] == "submit"}
+    futs = [res["futures"].get(str(i), "pending") if i in mine else "pending" for i in range(1, nf + 1)]
+    futs = [{"exc:ValueError": "exc:ValueError"}.get(f, f) for f in futs]
+    outs = [x for x in (outcome_str(o) for o in last["outcomes"]) if x is not None]
+    a = res["sessions"][-2]["steps"] if len(res["sessions"]) > 1 else 0
+    nprev_p = nprev_w = 0
+    for en, pick, lab in res["trace"][:a]:
+        if lab[0] == "spawn":
+            nprev_p = max(nprev_p, int(lab[1][1:]))
+        if lab[0] == "tstart" and str(lab[1]).startswith("W"):
+            nprev_w = max(nprev_w, int(lab[1][1:]))
+    ents = res["ents"]
+    wnames = sorted([n for n in ents if n[0] == "W" and int(n[1:]) > nprev_w], key=lambda n: int(n[1:]))
+    ws = []
+    for n in wnames:
+        st, exc = ents[n]
+        ws.append("live" if st not in ("done", "killed") else ("dead" if exc else "done"))
+    pnames = sorted([n for n in res["procs"] if int(n[1:]) > nprev_p], key=lambda n: int(n[1:]))
+    ps = ["alive" if res["procs"][n]["alive"] else "exited" for n in pnames]
+    q = ["%d:%s" % (x["unf"], ".".join(x["items"])) for x in res["queues"][-1:]]
+    import re as _re
+
+    def ren(n):
+        m = _re.match(r"^([WP])(\d+)$", n)
+        return "%s%d" % (m.group(1), int(m.group(2)) - (nprev_w if m.group(1) == "W" else nprev_p)) if m else n
+    en_final = [ren(n) for n in res.get("enabled_final", [])]
+    lines.append("F|en=%s|futs=%s|outs=%s|main=%s|ws=%s|ps=%s|q=%s|nfiles=%d" % (
+        ",".join(en_final), ",".join(futs), ",".join(outs), "end" if ents["M"][0] == "done" else "live",
+        ",".join(ws), ",".join(ps), ",".join(q), res.get("nfiles", -1)))
+    return lines
